@@ -44,6 +44,7 @@ using namespace photon::fs;
 #define SUBCAP UNIT
 #endif
 #define TOTMAX (NSUB * SUBCAP)
+#define SPAN (NSUB >= 3 ? 3 : NSUB)      // vacuity witness: a request that touches this many sub-file parts
 #ifndef RLEN
 #define RLEN (TOTMAX + 2)     // request lengths 0..RLEN: up to beyond the composite size
 #endif
@@ -175,13 +176,13 @@ template<int OP, int SET> static inline __attribute__((always_inline)) void one_
         bool same = true;
         for (uint64_t i = 0; i < RLEN; i++) { if (i >= want) break; if (buf[i] != REF[off + i]) same = false; }
         CHECK(same, "pread delivers the composite's bytes in order");
-        if (n_req == 3 && off % UNIT && (off + want) % UNIT) WITNESS("pread spans three parts, unaligned at both ends");
+        if (n_req == SPAN && off % UNIT && (off + want) % UNIT) WITNESS("pread spans min(3, NSUB) parts, unaligned at both ends");
         if (want < cnt) WITNESS("pread clipped at the end of the composite");
     } else {
         for (uint64_t i = 0; i < RLEN; i++) { if (i >= cnt) break; uint8_t x = nondet_u8(); buf[i] = x; if (i < want) REF[off + i] = x; }
         ssize_t r = X->pwrite(buf, cnt, off);
         CHECK(r == (ssize_t)want, "pwrite returns min(count, size - offset)");
-        if (n_req == 3 && off % UNIT && (off + want) % UNIT) WITNESS("pwrite spans three parts, unaligned at both ends");
+        if (n_req == SPAN && off % UNIT && (off + want) % UNIT) WITNESS("pwrite spans min(3, NSUB) parts, unaligned at both ends");
         if (want < cnt) WITNESS("pwrite clipped at the end of the composite");
     }
 #if KIND == K_STRIPE
